@@ -246,6 +246,22 @@ func (e *Engine) frameTargets(a *act, fs *FuncSpec, entryEnv *specEnv) *frameInf
 			}
 			continue
 		}
+		if x.Op == "call" && x.Args[0].Op == "ident" && x.Args[0].Name == "entries" && len(x.Args) == 2 {
+			v, err := entryEnv.eval(x.Args[1])
+			if err != nil {
+				a.specError(cl, err)
+				continue
+			}
+			if mt, ok := v.Typ.Underlying().(*types.Map); ok && v.T != nil {
+				if mh := e.mapHeaps(mt); mh != nil {
+					fr.targets[mh.dom] = append(fr.targets[mh.dom], v.T[0])
+					for _, n := range mh.val {
+						fr.targets[n] = append(fr.targets[n], v.T[0])
+					}
+				}
+			}
+			continue
+		}
 		if x.Op == "call" && x.Args[0].Op == "ident" && x.Args[0].Name == "elems" {
 			v, err := entryEnv.eval(x.Args[1])
 			if err != nil {
